@@ -111,6 +111,26 @@ def sp_part(ck: Check):
                 good = False
                 continue
             want = 'syntax-error' if len(set(ks)) != len(ks) else 'dict'
+            if creal == 'dict' and want == 'syntax-error':
+                # the statement is about FILES: a tree may detect duplicates elsewhere than in this callback. Replay through the real parsers.
+                from hpl.parser import property_parser, specification_parser
+                text = ''.join(f'# {k}: ' + ('p1' if k == 'id' else '"v"') + '\n' for k in ks) + 'globally: no a'
+                outcomes = []
+                for mk in (property_parser, specification_parser):
+                    try:
+                        mk().parse(text)
+                        outcomes.append('accepted')
+                    except HplSyntaxError:
+                        outcomes.append('HplSyntaxError')
+                    except Exception as e:
+                        outcomes.append(type(e).__name__)
+                if outcomes == ['HplSyntaxError', 'HplSyntaxError']:
+                    ck.engine('SP', duplicate_detection_outside_metadata_callback=True)
+                    ck.assume('duplicate annotation keys are detected outside PropertyTransformer.metadata in this tree: decided by the end-to-end files (every file also through long-lived parser objects)')
+                    continue
+                good = False
+                ck.counterexample(f'metadata-duplicates:{creal}', f'metadata({ks}) -> dict and the parsers answer {outcomes} on «{text}», expected a syntax error', {'kind': 'metadata', 'keys': ks})
+                continue
             if creal != want or (val[0] == 'dict' and not val[2]):
                 good = False
                 ck.counterexample(f'metadata-duplicates:{creal}', f'metadata({ks}) -> {creal}, expected {want}', {'kind': 'metadata', 'keys': ks})
@@ -154,6 +174,9 @@ def annotate(text: str, keys: Tuple[str, ...], i: int) -> Tuple[str, Dict[str, s
     return head + text, md
 
 
+_LONG_LIVED = {}
+
+
 def file_case(item):
     from hpl.parser import HplParser
     members, seps = item
@@ -162,6 +185,22 @@ def file_case(item):
     text = ''
     for k, (t, _md, _err) in enumerate(members):
         text += (seps[k % len(seps)] if k else '') + t
+    # statelessness across files: one parser object per worker process sees every file of its chunks (valid and failing ones) and must
+    # answer exactly like a fresh parser
+    if not _LONG_LIVED:
+        _LONG_LIVED['file'] = HplParser.specification_parser()
+        _LONG_LIVED['prop'] = HplParser.property_parser()
+
+    def outcome_of(parser, t):
+        try:
+            r = parser.parse(t)
+            return ('ok', r, [p.metadata for p in r.properties] if hasattr(r, 'properties') else r.metadata)
+        except Exception as e:
+            return ('err', type(e).__name__, None)
+    for which, fresh, t in [('file', fp, text)] + [('prop', pp, m[0]) for m in members[:2]]:
+        a, b = outcome_of(_LONG_LIVED[which], t), outcome_of(fresh, t)
+        if a != b:
+            return ('parser-keeps-state', f'a parser object that has parsed other texts before answers {a[0]} {a[1] if a[0] == "err" else ""}, a fresh one {b[0]} {b[1] if b[0] == "err" else ""}', t)
     singles = []
     first_err = None
     for t, md, err in members:
